@@ -1,14 +1,14 @@
 SPECIFICATION Spec
 CONSTANTS
-  Mode = "overlap"
+  Mode = "kinds"
   HKinds = {"att", "agg", "proposal", "syncmsg", "contrib", "bcsub", "scsub", "prep"}
-  HConcSet = {1, 2}
-  HItemSet = {1}
-  HClients = {"lighthouse", "teku"}
-  HNodeCounts = {2}
-  HLens = {2}
+  HConcSet = {3}
+  HItemSet = {2}
+  HClients = {"lighthouse"}
+  HNodeCounts = {3}
+  HLens = {8}
   HOutcomes = {}
   HConfSets = {}
-  HVecOuts = {}
+  HVecOuts = {"reject", "slowrej1", "slowok1", "slowok2", "hang"}
 INVARIANTS Emit
 CHECK_DEADLOCK FALSE
